@@ -33,8 +33,10 @@ SENT == -2
 CUR == -10
 DISC == -11
 MSEG == -12
+REFS == -14
 ZERO == -20
 USER == -21
+UNMAP == -22
 
 W(s, n) == [size |-> s, next |-> n]
 WS == W(NIL, NIL)
@@ -60,8 +62,10 @@ L0 == [opk |-> "none", n |-> 0, ts |-> 0, ta |-> 1, ex |-> 0, al |-> 0, i |-> 0,
        pcur |-> 0, pw |-> W0, ncur |-> 0, nw |-> W0,
        ret |-> "none", res |-> "none", meta |-> M0, acc |-> 0, h |-> 0, v |-> 0, at |-> 0]
 
-VARIABLES cursor, disc, minseg, sent, mem, pc, loc, ip, hs, live
-vars == <<cursor, disc, minseg, sent, mem, pc, loc, ip, hs, live>>
+VARIABLES cursor, disc, minseg, sent, mem, pc, loc, ip, hs, live, refs, freed, touchedAfterFree
+vars == <<cursor, disc, minseg, sent, mem, pc, loc, ip, hs, live, refs, freed, touchedAfterFree>>
+\* refs  : the reference count of the backing Memory (Arc-style, sync.rs:181 / 1671 / 1695)
+\* freed : number of times the backing memory has been unmounted
 \* hs   : handle id |-> [mo, ms, po, ps, pat (0 = not filled), t]   (every handle ever returned and not yet released)
 \* live : set of handle ids currently live (returned, release call not yet entered)
 
@@ -76,6 +80,7 @@ CasW(at, e, n) == Acc0("casw", at, e, n, "sc", "acq")
 Cas(at, e, n, so, fo) == Acc0("cas", at, e, n, so, fo)
 Store(at, v) == Acc0("store", at, v, 0, "rel", "rel")
 Fadd(at, k) == Acc0("fadd", at, k, 0, "rel", "rel")
+Fsub(at, k) == Acc0("fsub", at, k, 0, "rel", "rel")
 
 Goto(l, p) == [pc |-> p, loc |-> l]
 Done(l, r) == [pc |-> "done", loc |-> [l EXCEPT !.res = r]]
@@ -122,6 +127,11 @@ Access(p, l) == CASE
   [] p = "dis.cas_mark"     -> Cas(l.head, l.hw, W(0, l.hw.next), "acqrel", "rlx")  \* 1511
   [] p = "dis.cas_unlink"   -> Cas(SENT, l.sw, W(l.sw.size, l.hw.next), "acqrel", "rlx")  \* 1526
   [] p = "dis.fadd"         -> Fadd(DISC, l.hw.size)                                \* 1534
+  \* ---- Clone 181 / Drop 1671, 1695 / Memory::unmount
+  [] p = "rc.fadd"          -> Fadd(REFS, 1)
+  [] p = "rc.fsub"          -> Fsub(REFS, 1)
+  [] p = "rc.load"          -> Load(REFS)
+  [] p = "rc.unmount"       -> Acc0("unmount", UNMAP, 0, Cap, "na", "na")
   \* ---- non-atomic steps
   [] p = "zero"             -> Acc0("zero", ZERO, l.meta.po, l.meta.ps, "na", "na")   \* Meta::clear, lib.rs:881
   [] p = "user.fill"        -> Acc0("fill", USER, l.h, 0, "na", "na")
@@ -267,6 +277,11 @@ Cont(p, l, r) == CASE
   [] p = "dis.cas_mark" -> (IF r.ok THEN Goto(l, "dis.cas_unlink") ELSE Goto(l, "dis.load_sent"))
   [] p = "dis.cas_unlink" -> (IF r.ok THEN Goto(l, "dis.fadd") ELSE Goto(l, "dis.load_sent"))
   [] p = "dis.fadd" -> Goto([l EXCEPT !.acc = l.acc + (IF l.hw.size > 0 THEN l.hw.size ELSE 0)], "dis.load_sent")
+  \* ---- reference counting
+  [] p = "rc.fadd" -> Done(l, "cloned")
+  [] p = "rc.fsub" -> (IF r.old # 1 THEN Done(l, "dropped") ELSE Goto(l, "rc.load"))
+  [] p = "rc.load" -> Goto(l, "rc.unmount")
+  [] p = "rc.unmount" -> Done(l, "unmounted")
   \* ---- non-atomic
   [] p = "zero" -> Done([l EXCEPT !.meta = IF l.ret = "fast" THEN l.meta ELSE FinalMeta(l)], "ok")
   [] p = "user.fill" -> Done(l, "user")
@@ -275,7 +290,7 @@ Cont(p, l, r) == CASE
 
 \* ---------------------------------------------------------------- shared memory
 Read(at) == IF at = CUR THEN cursor ELSE IF at = DISC THEN disc ELSE IF at = MSEG THEN minseg
-            ELSE IF at = SENT THEN sent ELSE IF at \in {ZERO, USER} THEN 0 ELSE WordAt(mem, at)
+            ELSE IF at = SENT THEN sent ELSE IF at = REFS THEN refs ELSE IF at \in {ZERO, USER, UNMAP} THEN 0 ELSE WordAt(mem, at)
 
 \* ---------------------------------------------------------------- programs
 ProgOf(t) == Prog[t]
@@ -290,6 +305,8 @@ StartOf(t, op) ==
   ELSE IF op.k = "aa" THEN Goto([L0 EXCEPT !.opk = "aa", !.ts = op.s, !.ta = op.a, !.ex = op.n, !.n = op.s + op.a - 1 + op.n], "al.load_cur")
   ELSE IF op.k = "drop" THEN Goto([L0 EXCEPT !.opk = "drop", !.h = op.h, !.ioff = hs[op.h].mo, !.isize = hs[op.h].ms], "de.cas_cur")
   ELSE IF op.k = "discard" THEN Goto([L0 EXCEPT !.opk = "discard"], "dis.load_sent")
+  ELSE IF op.k = "clone" THEN Goto([L0 EXCEPT !.opk = "clone"], "rc.fadd")
+  ELSE IF op.k \in {"drop_arena", "drop_clone"} THEN Goto([L0 EXCEPT !.opk = op.k], "rc.fsub")
   ELSE IF op.k = "fill" THEN Goto([L0 EXCEPT !.opk = "fill", !.h = op.h], "user.fill")
   ELSE IF op.k = "verify" THEN Goto([L0 EXCEPT !.opk = "verify", !.h = op.h], "user.verify")
   ELSE Goto([L0 EXCEPT !.opk = "write", !.h = op.h, !.v = W(op.vw[1], op.vw[2]), !.at = op.at], "user.write")
@@ -316,14 +333,19 @@ Step(t) ==
          old == Read(a.at)
          ok == IF a.kind \in {"cas", "casw"} THEN old = a.exp ELSE TRUE
          c == Cont(b.pc, b.loc, [old |-> old, ok |-> ok])
-         wr == a.kind = "store" \/ (a.kind \in {"cas", "casw"} /\ ok) \/ a.kind = "fadd"
-         nv == IF a.kind = "fadd" THEN old + a.exp ELSE IF a.kind = "store" THEN a.exp ELSE a.new
+         wr == a.kind = "store" \/ (a.kind \in {"cas", "casw"} /\ ok) \/ a.kind \in {"fadd", "fsub"}
+         nv == IF a.kind = "fadd" THEN old + a.exp ELSE IF a.kind = "fsub" THEN old - a.exp
+               ELSE IF a.kind = "store" THEN a.exp ELSE a.new
          hr == IF a.at = USER THEN hs[a.exp] ELSE M0
      IN
      /\ cursor' = IF wr /\ a.at = CUR THEN nv ELSE cursor
      /\ disc' = IF wr /\ a.at = DISC THEN nv ELSE disc
      /\ minseg' = minseg
      /\ sent' = IF wr /\ a.at = SENT THEN nv ELSE sent
+     /\ refs' = IF wr /\ a.at = REFS THEN nv ELSE refs
+     /\ freed' = IF a.kind = "unmount" THEN freed + 1 ELSE freed
+     \* C13 (multi-threaded): nothing touches the arena once its memory is gone
+     /\ touchedAfterFree' = (touchedAfterFree \/ (freed > 0))
      /\ mem' = IF wr /\ a.at >= 0 THEN PutWord(mem, a.at, nv)
                ELSE IF a.kind = "zero" THEN SetBytes(mem, a.exp, a.exp + a.new, 0)
                ELSE IF a.kind = "fill" THEN SetBytes(mem, hr.po, hr.po + hr.ps, PatOf(a.exp))
@@ -345,6 +367,17 @@ Step(t) ==
              /\ hs' = hs /\ live' = live1
              /\ ip' = ip
 
+\* what the next step of t accesses (for wrappers that observe steps: happens-before, crash points)
+Info(t) ==
+  LET fresh == pc[t] = "idle"
+      op == ProgOf(t)[ip[t]]
+      b == IF fresh THEN StartOf(t, op) ELSE Goto(loc[t], pc[t])
+      a == Access(b.pc, b.loc)
+      old == Read(a.at)
+      ok == IF a.kind \in {"cas", "casw"} THEN old = a.exp ELSE TRUE
+  IN [a |-> a, ok |-> ok, label |-> b.pc, at |-> b.loc.at,
+      h |-> IF a.at = USER THEN hs[a.exp] ELSE [po |-> 0, ps |-> 0]]
+
 \* ops that take no step at all are consumed together with the preceding step (and at the start)
 
 Init ==
@@ -352,6 +385,7 @@ Init ==
   /\ hs = Setup.handles /\ live = DOMAIN Setup.handles
   /\ pc = [t \in Threads |-> "idle"] /\ loc = [t \in Threads |-> L0]
   /\ ip = [t \in Threads |-> SkipFrom(t, 1, DOMAIN Setup.handles)]
+  /\ refs = Setup.refs /\ freed = 0 /\ touchedAfterFree = FALSE
 
 Next == \E t \in Threads : Step(t)
 Spec == Init /\ [][Next]_vars
@@ -366,6 +400,10 @@ LiveIntact == \A a \in live :
                  \* a handle into which its owner wrote a word still holds that word
                  /\ (hs[a].pat = -1 /\ (hs[a].po + hs[a].wat) % 8 = 0) => WordAt(mem, hs[a].po + hs[a].wat) = hs[a].wv
 NoOutOfBounds == \A t \in Threads : pc[t] # "oob"
+\* C12 / C13: the backing memory is released exactly once, by the last reference, and never touched afterwards
+FreedAtMostOnce == freed <= 1
+FreedOnlyAtZero == (freed > 0) => refs = 0
+NoAccessAfterFree == ~touchedAfterFree
 \* C07
 Termination == <>AllDone
 =============================================================================
